@@ -6,56 +6,90 @@ From ELA Require Import lib.History model.C22_CrState proof.C22_CrState.
 Import ListNotations.
 Local Open Scope Z_scope.
 
-(* Change discipline: if no cell of a height's change list is both assigned
-   and added to, and every assignment's undo value is the cell's value in the
-   state s where the list was recorded, then undoing the list (in the
-   history's forward order) after executing it gives back s. *)
+(* Change discipline: if no cell of an entry's change list is both
+   undo-assigned and added to, and every undo value is the cell's value in the
+   state s where the list was recorded, then undoing the list (in the history's
+   forward order) after executing it gives back s. *)
 Theorem C22_change_discipline : forall s cs,
   disc s cs -> meq (undo_order (map to_change cs) (do_all (map to_change cs) s)) s.
 Proof. intros s cs D. rewrite undo_order_map, do_all_map. now apply entry_good. Qed.
 Print Assumptions C22_change_discipline.
 
-(* The closures of the modelled transaction kinds (CRC votes, vote
-   cancellations, unregistration, proposal review, budget commitment and
-   release), built from the pre-block state, satisfy the discipline whenever a
-   candidate being unregistered has CancelHeight 0 (the Go undo resets it to the
-   literal 0). *)
+(* The boolean discipline check evaluated on observed histories is sound. *)
+Theorem C22_discipline_check_sound : forall s cs, discb s cs = true -> disc s cs.
+Proof. exact discb_sound. Qed.
+Print Assumptions C22_discipline_check_sound.
+
+(* The closures of the simple kinds (CRC votes, vote cancellations,
+   unregistration, review, reject votes, impeachment votes, budget commitment
+   and release) satisfy the discipline by construction, provided a candidate
+   being unregistered has CancelHeight 0 (the Go undo resets it to the literal 0). *)
 Theorem C22_modelled_kinds_disciplined : forall s h txs,
-  unreg_fresh s txs -> disc s (mk_changes s h txs).
+  Forall simple txs -> unreg_fresh s txs -> disc s (mk_changes s h txs).
 Proof. exact mk_disc. Qed.
 Print Assumptions C22_modelled_kinds_disciplined.
 
-(* Rollback = direct build: for every sequence of blocks with increasing
-   heights over the modelled kinds, every start state and every target k. *)
-Theorem C22_rollback_eq_direct : forall k bs s0, increasing bs -> good s0 bs ->
+(* Rollback = direct build over all modelled kinds (now including proposal
+   tracking of every type, withdrawal, abort on council dissolution, member
+   state transfer on impeachment / termination, dissolution and captured-old
+   assignments of field sets as at a committee change): for every sequence of
+   entries with non-decreasing heights (the histories of one block share its
+   height) that passes the discipline at each recording state, every start
+   state and every target. *)
+Theorem C22_rollback_eq_direct : forall k bs s0, nondecreasing bs -> good s0 bs ->
   meq (rollback_to k (fst (process s0 bs)) (snd (process s0 bs))) (direct k s0 bs).
 Proof. exact rollback_eq_direct. Qed.
 Print Assumptions C22_rollback_eq_direct.
 
-(* Without the discipline the forward undo order is wrong (C20's finding seen
-   from here): two assignments of one cell in one height with different undo
-   values. *)
+Theorem C22_rollback_eq_direct_checked : forall k bs s0, nondecreasing bs -> goodb s0 bs = true ->
+  meq (rollback_to k (fst (process s0 bs)) (snd (process s0 bs))) (direct k s0 bs).
+Proof. intros. apply rollback_eq_direct; auto. now apply goodb_good. Qed.
+Print Assumptions C22_rollback_eq_direct_checked.
+
+(* Without the discipline the forward undo order is wrong. *)
 Theorem C22_undisciplined_refuted : exists cs s, get 7 (undos cs (dos cs s)) <> get 7 s.
 Proof. exact undisciplined_refuted. Qed.
 Print Assumptions C22_undisciplined_refuted.
 
-(* Non-vacuity: three blocks with votes, a cancellation, an unregistration, a
-   review and a budget; rolling back to height 11 gives the state after block
-   11, which differs from both the start and the end. *)
+(* A literal undo value is only right when it is the recorded value: a
+   progress tracking recorded while FinalPaymentStatus is already raised
+   lowers it on rollback, and the discipline check rejects that entry. *)
+Theorem C22_literal_undo_refuted :
+  exists s, get (final 1) s = 1 /\
+    let cs := mk_changes s 9 [TxTrack 1 TProgress 0 5 0 false [1; 2] 0] in
+    get (final 1) (undos cs (dos cs s)) = 0 /\ discb s cs = false.
+Proof. exact literal_undo_refuted. Qed.
+Print Assumptions C22_literal_undo_refuted.
+
+(* Non-vacuity: votes, cancellation, unregistration, review, budget; then a
+   block with a withdrawal and a progress tracking of one proposal, a block
+   whose state entry carries impeachment votes and whose committee entry
+   impeaches the member, dissolves the council and (manager entry) aborts a
+   pending proposal; a committee-change style reassignment.  All entries pass
+   the discipline check; rolling back to 12 gives the state after height 12. *)
+Definition ex_s0 : mem :=
+  [(cstate 0, 1); (cstate 1, 1); (pstatus 1, 2); (bstat 1 0, 1); (wable 1 0, 11); (bstat 1 1, 0); (bstat 1 2, 0);
+   (pstatus 2, 0); (bstat 2 0, 1); (bstat 2 1, 0); (mstate 3, 0); (deposit 3, 500000000000); (inelect, 1); (used, 100)].
 Definition ex_bs : list (Z * list tx) :=
   [(11, [TxVote [(0, 5); (1, 7)]; TxProposalBudget 100]);
-   (12, [TxCancelVote [(0, 5); (1, 7)]; TxVote [(1, 9)]; TxUnregister 0; TxReview 1 2 0]);
-   (13, [TxTrackingRelease 40; TxReview 1 2 1; TxReview 1 2 2])].
-Definition ex_s0 : mem := [(cstate 0, 1); (cstate 1, 1)].
+   (12, [TxCancelVote [(0, 5); (1, 7)]; TxVote [(1, 9)]; TxUnregister 0; TxReview 2 2 0]);
+   (13, [TxWithdraw 1 [0; 1; 2] 77; TxTrack 1 TProgress 1 20 0 false [0; 1; 2] 0; TxImpeachVote 3 1000]);
+   (13, [TxAbort 2 [0; 1]]);
+   (13, [TxTransferMember 3 MImpeached 42; TxDissolve 13]);
+   (14, [TxTrack 1 TFinalized 2 30 2 false [0; 1; 2] 0]);
+   (14, [TxAssignMany [(used, 55); (cstate 1, 0); (mstate 3, 0)]])].
 Example C22_nonvacuous :
-  increasing ex_bs /\ good ex_s0 ex_bs /\
+  nondecreasing ex_bs /\ goodb ex_s0 ex_bs = true /\
   let '(log, s) := process ex_s0 ex_bs in
-  (get (votes 1) s, get (cstate 0) s, get (cancelh 0) s, get (review 1 2) s, get used s) = (9, 2, 12, 3, 60) /\
-  (let r := rollback_to 11 log s in
-   (get (votes 0) r, get (votes 1) r, get (cstate 0) r, get (cancelh 0) r, get (review 1 2) r, get used r) = (5, 7, 1, 0, 0, 100)).
+  (get (wn 1 0) s, get (bstat 1 0) s, get (bstat 1 1) s, get (wable 1 1) s, get (pstatus 1) s, get (wable 1 2) s,
+   get (pstatus 2) s, get (bstat 2 1) s, get (mstate 3) s, get (penalty 3) s, get (deposit 3) s, get inelect s, get used s)
+  = (11, 2, 1, 21, 3, 31, 7, 4, 0, 42, 0, 0, 55) /\
+  (let r := rollback_to 12 log s in
+   (get (wn 1 0) r, get (bstat 1 0) r, get (bstat 1 1) r, get (wable 1 1) r, get (pstatus 1) r, get (wtx 77) r,
+    get (pstatus 2) r, get (bstat 2 1) r, get (mstate 3) r, get (penalty 3) r, get (deposit 3) r, get inelect r,
+    get (imp 3) r, get used r, get (votes 1) r, get (cstate 0) r)
+   = (0, 1, 0, 0, 2, 0, 0, 0, 0, 0, 500000000000, 1, 0, 200, 9, 2)).
 Proof.
-  split; [repeat constructor; simpl; lia|]. split.
-  - simpl. repeat split; intros i [H|H]; try discriminate H; try contradiction;
-      repeat (destruct H as [H|H]; try discriminate H; try contradiction); injection H as <-; reflexivity.
-  - vm_compute. split; reflexivity.
+  split; [repeat constructor; simpl; lia|]. split; [vm_compute; reflexivity|].
+  vm_compute. split; reflexivity.
 Qed.
